@@ -1,5 +1,7 @@
 import RtcVerif.Model.C10Priority
 import RtcVerif.Proofs.C10Priority
+import RtcVerif.Model.C10Loop
+import RtcVerif.Proofs.C10Loop
 import Mathlib.Tactic.Linarith
 /-!
 # C10 — a failed priority stops the run and leaves the last good results
@@ -355,6 +357,23 @@ theorem C10_runs_independent (v : Variant) (rs : List RunSpec) (i : Nat) (hi : i
         cases hs : sti.lastRaw with
         | some y => obtain ⟨a, b, c⟩ := y; rw [hs] at hj; simp at hj
         | none => rw [hs] at hj; simp at hj
+
+/-- **The statement-level reference agrees with the model**: one `optimize()` call written out
+    statement by statement over the attributes the code has (`Model/C10Loop.lean`: hook, skip test,
+    solver call, `break`, the three cache statements, completion hook; the reset before the loop) —
+    the target of the source translation `Gen/PriorityLoop.lean` — produces exactly the log and
+    return value of `optimize` and leaves the instance in the state `runOnce` describes; inside
+    every `priority_completed(q)` hook `extract_results()` shows the output of the solve at `q` of
+    this very call.  Hence every theorem above applies to the translated source. -/
+theorem C10_reference_agrees (v : Variant) (run : Nat) (pst : Persist) (r : RunSpec) :
+    (optimizeRef v run pst r).events = (optimize v r.gs r.skip r.oracle).events ∧
+    (optimizeRef v run pst r).success = (optimize v r.gs r.skip r.oracle).success ∧
+    (optimizeRef v run pst r).persist = (runOnce v true run pst r).1 ∧
+    exposedS (optimizeRef v run pst r).persist = exposedS (runOnce v true run pst r).1 ∧
+    (optimizeRef v run pst r).views
+      = (completedOf (optimize v r.gs r.skip r.oracle).events).map (fun q => (q, some (run, q))) := by
+  obtain ⟨h1, h2, h3, h4⟩ := optimizeRef_eq_model v run pst r
+  exact ⟨h1, h2, h3, by rw [h3], h4⟩
 
 private def oneGoal : List Goal := [⟨1, ⟨false, [XVal.nan]⟩, ⟨false, [XVal.nan]⟩⟩,
                                      ⟨2, ⟨false, [XVal.nan]⟩, ⟨false, [XVal.nan]⟩⟩]
